@@ -22,7 +22,7 @@ BUDGETS = {'C13': (40, 900, 200)}
 LEVELS = {'C13': 'exploration'}
 PROBES = {'C13': ['producer_blocked_in_put', 'stop_while_producer_blocked', 'stop_while_paused', 'paused',
                   'task_exception', 'source_exception', 'concurrency_changed', 'stop_called', 'app_variant',
-                  'stop_with_item_queued', 'ended_paused', 'action_before_first_producer_step']}
+                  'stop_with_item_queued', 'ended_paused', 'action_before_first_producer_step', 'task_returns_a_future']}
 INFO = {'C13': {
     'rule': 'workload = (K items 0..12, T tasks 1..3, latency per source call and per (task,item), optional exception '
             'in one task call or one source call, controller actions concurrency:=c (0..4) and stop() at drawn virtual '
@@ -177,6 +177,14 @@ class Task(ItemTask):
         r.events.append(('end', key))
 
 
+class FutureTask(Task):
+    """The same task written as a plain function that hands back a future of its work (what `yield from` in the worker accepts
+    just as well as a coroutine: any awaitable)."""
+
+    def process(self, item):
+        return asyncio.ensure_future(Task.process(self, item))
+
+
 def build_pipeline(tape, h, name, K, T, faults_on):
     items = ['%s.i%d' % (name, i) for i in range(K)]
     src_lats = [LAT[tape.draw(len(LAT), 'src.lat')] for _ in range(K + 1)]
@@ -191,7 +199,10 @@ def build_pipeline(tape, h, name, K, T, faults_on):
     tasks = []
     for ti in range(T):
         lat = {it: LAT[tape.draw(len(LAT), 'task.lat')] for it in items}
-        tasks.append(Task(h, ti, lat, fail_task[1] if fail_task[0] == ti else None))
+        cls = FutureTask if tape.chance(1, 5, 'task.as_future') else Task
+        if cls is FutureTask:
+            h.r.probes['task_returns_a_future'] += 1
+        tasks.append(cls(h, ti, lat, fail_task[1] if fail_task[0] == ti else None))
     src = Source(h, name, items, src_lats, fail_src)
     q = LogItemQueue(h)
     p = Pipeline(src, tasks, q)
